@@ -19,27 +19,25 @@ Theorem C16_no_preview_event : forall s, reachable s -> no_event_for_preview s.
 Proof. exact e3_no_preview_event. Qed.
 Print Assumptions C16_no_preview_event.
 
-(* FULL STATEMENT (Spec.events_after_persist), which is FALSE of the model and of the code:
-     forall s, reachable s -> events_after_persist s
-   see C16_after_persist_refuted below. What holds: *)
+(* THE FULL STATEMENT (Spec.events_after_persist), unconditionally: every event was published when an entry was
+   already on disk (among the first [ev_persisted ev] entries) that MATCHES it -- same kind, same transaction id and,
+   for a revert, the SAME reverted transaction -- and that is the publisher's own entry or the entry stored under the
+   publisher's idempotency key (replay).  Since the repair of executionContext.run (a key is answered again only when
+   the stored log is the outcome of this very request, [Model.is_outcome_of]; otherwise [EKeyReused]) no exclusion
+   hypothesis is left: the two key-reuse classes that refuted this statement are now refused, see
+   C16_key_reused_revert_refused / C16_key_reused_cross_kind_refused below. *)
+Theorem C16_after_persist : forall s, reachable s -> events_after_persist s.
+Proof. exact e3_after_persist. Qed.
+Print Assumptions C16_after_persist.
 
-(* unconditionally: every event was published by a non-preview request of the event's kind, when an entry was
-   already on disk (among the first [ev_persisted ev] entries) that is
-   - the publisher's own: same kind, same transaction id, same reverted id; or
-   - the entry stored under the publisher's idempotency key (replay): of the event's kind and transaction id (the
-     event's reverted id is then the one the REQUEST named), or of ANOTHER kind -- then the publisher is a metadata
-     write, the event carries no transaction id, and nothing was written for it *)
-Theorem C16_after_persist_weak : forall s, reachable s -> events_after_persist_weak s.
-Proof. exact e3_after_persist_weak. Qed.
-Print Assumptions C16_after_persist_weak.
-
-(* the full statement, under the two executable exclusions: no idempotency key stored on a revert entry is reused
-   by a non-preview revert request naming a different transaction, and no idempotency key is reused by a request of
-   another kind than the entry stored under it *)
-Theorem C16_after_persist_partial : forall s, reachable s ->
-  ik_revert_consistent_b s = true -> ik_kind_consistent_b s = true -> events_after_persist s.
-Proof. exact e3_after_persist_partial. Qed.
-Print Assumptions C16_after_persist_partial.
+(* besides: the publisher of every event is a non-preview request of the event's kind, and the reverted transaction
+   the event names is the one the request named (so, with C16_after_persist: the one the matching entry reverts) *)
+Theorem C16_event_of_request : forall s, reachable s -> forall ev, In ev (published s) ->
+  exists th, get_thread (threads s) (ev_tid ev) = Some th /\ rq_dry (t_req th) = false /\
+    ev_kind ev = rq_kind (t_req th) /\
+    ev_reverted ev = match rq_kind (t_req th) with KRevert => Some (rq_revert (t_req th)) | _ => None end.
+Proof. exact e3_event_of_request. Qed.
+Print Assumptions C16_event_of_request.
 
 (* every event was published by a request that has finished and answered a success: no event is owned by a
    request that answered an error, crashed, or gave up *)
@@ -159,14 +157,14 @@ Qed.
    its metadata entry is appended and persisted, it is acknowledged ([ROk None]) and publishes its SAVED_METADATA
    event -- AFTER its entry is on disk ([ev_persisted = 2], the entry is the second), so the event is faithful to a
    persisted entry of the same kind owned by the publisher and [events_after_persist] holds of the final state
-   (C16_after_persist_partial applies: both exclusions are true). Without the read failure the same request answers
+   (C16_after_persist; its executable necessary condition [eap_b] is computed below). Without the read failure the same request answers
    [ENotFound] and writes nothing; DeleteMetadata answers [ENotFound] in both cases. *)
 Definition c16_sm_req : request :=
   {| rq_kind := KSaveMeta; rq_ik := 5%N; rq_ref := 0%N; rq_dry := false; rq_postings := []; rq_unb := false;
-     rq_revert := O; rq_target_tx := Some 7%nat |}.
+     rq_revert := O; rq_target_tx := Some 7%nat; rq_meta := 0%N |}.
 Definition c16_dm_req : request :=
   {| rq_kind := KDelMeta; rq_ik := 6%N; rq_ref := 0%N; rq_dry := false; rq_postings := []; rq_unb := false;
-     rq_revert := O; rq_target_tx := Some 7%nat |}.
+     rq_revert := O; rq_target_tx := Some 7%nat; rq_meta := 0%N |}.
 Example C16_read_failed_savemeta_nonvacuous :
   exists s1 s2 s3 s sn sd,
     run init (firstn 13 c16_cancel_prefix ++ [AStart 3%nat c16_sm_req; AResume 3%nat]) = Some s1 /\
@@ -187,7 +185,7 @@ Example C16_read_failed_savemeta_nonvacuous :
     map (fun ev => (ev_tid ev, ev_kind ev, ev_txid ev, ev_persisted ev)) (published s) =
       [(0%nat, KCreate, Some 0%nat, 1%nat); (3%nat, KSaveMeta, None, 2%nat)] /\
     persisted s = persisted s3 /\ find_tx (persisted s) 7%nat = None /\
-    ik_revert_consistent_b s = true /\ ik_kind_consistent_b s = true /\ eap_b s = true /\
+    eap_b s = true /\
     (* the same request when the read does not fail: not found, nothing written, no event *)
     run s1 [AResume 3%nat] = Some sn /\
     option_map t_resp (get_thread (threads sn) 3%nat) = Some (Some (RErr ENotFound)) /\
@@ -201,7 +199,8 @@ Proof.
 Qed.
 
 (* ---- non-vacuity: two creates (the second under key 8), a revert of the first under key 7, the second create
-   replayed under key 8, a metadata write and a preview; five events, the hypotheses of the partial theorem hold ---------------------- *)
+   replayed under key 8 (same request: answered again and published again), a metadata write and a preview; five
+   events, each matched by an entry that was on disk ([eap_b]) ----------------------------------------------------- *)
 Definition c16_history : list (tid * request) :=
   [ (1%nat, mk_create 0 0 false [(world, 5%N, 10%Z)]);
     (2%nat, mk_create 8 9 false [(world, 6%N, 10%Z)]);
@@ -215,50 +214,104 @@ Example C16_nonvacuous :
     map (fun ev => (ev_tid ev, ev_txid ev, ev_reverted ev, ev_persisted ev)) (published s) =
       [ (1, Some 0, None, 1); (2, Some 1, None, 2); (3, Some 2, Some 0, 3); (4, Some 1, None, 3);
         (5, None, None, 4) ]%nat /\
-    ik_revert_consistent_b s = true /\ ik_kind_consistent_b s = true.
+    eap_b s = true.
 Proof. eexists. split; [vm_compute; reflexivity|]. vm_compute. repeat split. Qed.
 
-(* ---- the full statement is refuted: a key reused by a revert of ANOTHER transaction. Thread 4 asks to revert
-   transaction 1 with the key under which thread 3 reverted transaction 0; it is answered "done, by transaction 2"
-   and the event says "transaction 1 reverted by transaction 2" while entry 2 reverts transaction 0 and
-   transaction 1 is not reverted. The real RevertTransaction does the same (known finding). ------------------- *)
+(* ---- key reuse is refused (the schedules that refuted the full statement before the repair of
+   executionContext.run) ------------------------------------------------------------------------------------------ *)
+(* (a) a key reused by a revert of ANOTHER transaction. Thread 4 asks to revert transaction 1 with the key 7 under
+   which thread 3 reverted transaction 0. It takes the revert reservation for 1, finds transaction 1 not reverted,
+   takes key 7 and finds thread 3's entry under it ([PIkLookup (Some e)], a revert of transaction 0 with id 2): that
+   entry is not the outcome of this request, the request is refused with [EKeyReused]; the refusing step publishes
+   nothing and writes nothing; transaction 1 is not reverted, key and revert reservation are released. (Before: it
+   was answered "done, by transaction 2" and an event "transaction 1 reverted by transaction 2" was published.) *)
 Definition c16_bad_history : list (tid * request) :=
   [ (1%nat, mk_create 0 0 false [(world, 5%N, 10%Z)]);
     (2%nat, mk_create 0 0 false [(world, 6%N, 10%Z)]);
     (3%nat, mk_revert 7 false 0%nat);
     (4%nat, mk_revert 7 false 1%nat) ].
 Definition c16_bad_acts : list action := Eval vm_compute in submit_all_acts init c16_bad_history.
-Example C16_after_persist_refuted :
-  exists s, reachable s /\ ~ events_after_persist s /\ ik_revert_consistent_b s = false /\ ik_kind_consistent_b s = true.
+Definition c16_lookup_of (s : state) (t : tid) : option (kind * option nat * option nat * N) :=
+  match get_thread (threads s) t with
+  | Some th => match t_pc th with
+               | PIkLookup (Some e) => Some (e_kind e, e_txid e, e_reverts e, e_ik e)
+               | _ => None
+               end
+  | None => None
+  end.
+Example C16_key_reused_revert_refused :
+  exists s1 s,
+    run init (removelast c16_bad_acts) = Some s1 /\ last c16_bad_acts APersistOk = AResume 4%nat /\
+    c16_lookup_of s1 4%nat = Some (KRevert, Some 2%nat, Some 0%nat, 7%N) /\
+    step s1 (AResume 4%nat) = Some s /\ run init c16_bad_acts = Some s /\
+    option_map t_resp (get_thread (threads s) 4%nat) = Some (Some (RErr EKeyReused)) /\
+    published s = published s1 /\ persisted s = persisted s1 /\
+    map (fun ev => (ev_tid ev, ev_kind ev, ev_txid ev, ev_reverted ev)) (published s) =
+      [(1, KCreate, Some 0, None); (2, KCreate, Some 1, None); (3, KRevert, Some 2, Some 0)]%nat /\
+    map (fun e => (e_kind e, e_txid e, e_reverts e)) (persisted s) =
+      [(KCreate, Some 0, None); (KCreate, Some 1, None); (KRevert, Some 2, Some 0)]%nat /\
+    is_reverted (persisted s) 1%nat = false /\ is_reverted (persisted s) 0%nat = true /\
+    v_iks s = [] /\ v_revs s = [] /\ v_pending s = [] /\ v_batch s = None /\ eap_b s = true.
 Proof.
-  destruct (run init c16_bad_acts) as [s|] eqn:E; [|vm_compute in E; discriminate E].
-  exists s. split; [exists c16_bad_acts; exact E|].
-  vm_compute in E. inversion E; subst s; clear E. split; [|vm_compute; split; reflexivity].
-  intros H. apply eap_b_sound in H. vm_compute in H. discriminate H.
+  eexists. eexists. repeat (split; [vm_compute; reflexivity|]). vm_compute; reflexivity.
 Qed.
 
-(* ---- the stronger unconditional reading "an entry of the same kind and transaction id was on disk"
-   ([events_after_persist_samekind]) is refuted too: a metadata write that reuses the key of a transaction. Thread 2
-   saves metadata under the key 7 of thread 1's transaction; SaveMeta does not look at the stored entry: it answers
-   success and publishes a SAVED_METADATA event although no metadata entry exists (known finding
-   ik-reuse-across-kinds; CreateTransaction / RevertTransaction answer an error instead). ------------------------- *)
+(* (b) a key that stored a transaction reused by a metadata write. Thread 2 saves metadata (resp. deletes metadata)
+   under the key 7 of thread 1's transaction: refused with [EKeyReused], no event, nothing written. (Before: SaveMeta /
+   DeleteMetadata did not look at the stored entry, answered success and published although no metadata entry
+   existed -- the former finding ik-reuse-across-kinds.) *)
 Definition c16_cross_history : list (tid * request) :=
   [ (1%nat, mk_create 7 0 false [(world, 5%N, 10%Z)]);
     (2%nat, mk_meta 7 false None) ].
 Definition c16_cross_acts : list action := Eval vm_compute in submit_all_acts init c16_cross_history.
-Example C16_after_persist_weak_refuted_cross_kind :
-  exists s, reachable s /\ ~ events_after_persist_samekind s /\ ~ events_after_persist s /\
+Definition c16_del7_req : request :=
+  {| rq_kind := KDelMeta; rq_ik := 7%N; rq_ref := 0%N; rq_dry := false; rq_postings := []; rq_unb := false;
+     rq_revert := O; rq_target_tx := None; rq_meta := 0%N |}.
+Definition c16_cross_del_history : list (tid * request) :=
+  [ (1%nat, mk_create 7 0 false [(world, 5%N, 10%Z)]);
+    (2%nat, c16_del7_req) ].
+Definition c16_cross_del_acts : list action := Eval vm_compute in submit_all_acts init c16_cross_del_history.
+Example C16_key_reused_cross_kind_refused :
+  exists s1 s s1' s',
+    (* SaveMeta *)
+    run init (removelast c16_cross_acts) = Some s1 /\ last c16_cross_acts APersistOk = AResume 2%nat /\
+    c16_lookup_of s1 2%nat = Some (KCreate, Some 0%nat, None, 7%N) /\
+    step s1 (AResume 2%nat) = Some s /\ run init c16_cross_acts = Some s /\
+    option_map t_resp (get_thread (threads s) 2%nat) = Some (Some (RErr EKeyReused)) /\
+    published s = published s1 /\ persisted s = persisted s1 /\
     map e_kind (persisted s) = [KCreate] /\
-    map (fun ev => (ev_tid ev, ev_kind ev, ev_txid ev)) (published s) = [(1%nat, KCreate, Some 0%nat); (2%nat, KSaveMeta, None)] /\
-    ik_kind_consistent_b s = false /\ ik_revert_consistent_b s = true.
+    map (fun ev => (ev_tid ev, ev_kind ev, ev_txid ev)) (published s) = [(1%nat, KCreate, Some 0%nat)] /\
+    v_iks s = [] /\ v_pending s = [] /\ v_batch s = None /\ eap_b s = true /\
+    (* DeleteMetadata *)
+    run init (removelast c16_cross_del_acts) = Some s1' /\ last c16_cross_del_acts APersistOk = AResume 2%nat /\
+    c16_lookup_of s1' 2%nat = Some (KCreate, Some 0%nat, None, 7%N) /\
+    step s1' (AResume 2%nat) = Some s' /\ run init c16_cross_del_acts = Some s' /\
+    option_map t_resp (get_thread (threads s') 2%nat) = Some (Some (RErr EKeyReused)) /\
+    published s' = published s1' /\ persisted s' = persisted s1' /\
+    map e_kind (persisted s') = [KCreate] /\
+    map (fun ev => (ev_tid ev, ev_kind ev, ev_txid ev)) (published s') = [(1%nat, KCreate, Some 0%nat)] /\
+    v_iks s' = [] /\ v_pending s' = [] /\ v_batch s' = None /\ eap_b s' = true.
 Proof.
-  destruct (run init c16_cross_acts) as [s|] eqn:E; [|vm_compute in E; discriminate E].
-  exists s. split; [exists c16_cross_acts; exact E|].
-  vm_compute in E. inversion E; subst s; clear E. split; [|split].
-  - intros H. apply eap_samekind_b_sound in H. vm_compute in H. discriminate H.
-  - intros H. apply eap_b_sound in H. vm_compute in H. discriminate H.
-  - vm_compute. repeat split.
+  do 4 eexists. repeat (split; [vm_compute; reflexivity|]). vm_compute; reflexivity.
 Qed.
+
+(* (c) the replay branch is still taken by the SAME request: a metadata write (key 5, target and content "1")
+   persisted by thread 1 is answered again, and published again, for thread 2 repeating it; thread 3 reuses the key
+   for another content ("2"): refused. One metadata entry on disk, two events, both matched by it. *)
+Definition c16_meta_req (m : N) : request :=
+  {| rq_kind := KSaveMeta; rq_ik := 5%N; rq_ref := 0%N; rq_dry := false; rq_postings := []; rq_unb := false;
+     rq_revert := O; rq_target_tx := None; rq_meta := m |}.
+Definition c16_meta_acts : list action :=
+  Eval vm_compute in submit_all_acts init [(1%nat, c16_meta_req 1); (2%nat, c16_meta_req 1); (3%nat, c16_meta_req 2)].
+Example C16_key_replayed_same_request :
+  exists s, run init c16_meta_acts = Some s /\
+    map (fun e => (e_kind e, e_owner e, e_ik e, e_meta e)) (persisted s) = [(KSaveMeta, 1%nat, 5%N, 1%N)] /\
+    option_map t_resp (get_thread (threads s) 2%nat) = Some (Some (ROk None)) /\
+    option_map t_resp (get_thread (threads s) 3%nat) = Some (Some (RErr EKeyReused)) /\
+    map (fun ev => (ev_tid ev, ev_kind ev, ev_txid ev, ev_persisted ev)) (published s) =
+      [(1%nat, KSaveMeta, None, 1%nat); (2%nat, KSaveMeta, None, 1%nat)] /\
+    eap_b s = true.
+Proof. eexists. repeat (split; [vm_compute; reflexivity|]). vm_compute; reflexivity. Qed.
 
 (* ---- before the repair bbc4775 ("a dry run must not publish events"): with the variant [resume_prepub], which
    calls the monitor whatever DryRun says, a single preview publishes an event for which nothing is on disk.
